@@ -1,9 +1,243 @@
 import Blue.Proofs.Log
-import Blue.Proofs.LogTrunc
 import Blue.Proofs.LogHeader
-import Blue.Proofs.Wcq
+import Blue.Proofs.LogTrunc
+import Blue.Proofs.LogDamage
+import Blue.Proofs.LogCrash
+import Blue.Proofs.LogAny
+import Blue.Proofs.LogCrashAny
 import Blue.Proofs.FsyncCore
-/-! Property C12: the theorems the check builds and audits (spike inventory; the build phase
-    completes the list from DESIGN Appendix C.0). -/
-#print axioms Blue.Wcq.core_sees_inputs_once_in_order
-#print axioms Blue.FsyncCore.answered_true_is_durable
+import Blue.Proofs.Wcq
+import Blue.Proofs.WcqV
+import Blue.Proofs.Crc32c
+import Blue.Proofs.ConstsTieC12
+import Blue.Driver.C12
+/-! # Property C12 — the log returns each batch once, in order; a torn tail loses only the tail;
+    concurrent appends are durable before return and appear exactly once, whole
+
+Property theorems only (the proofs live in `Blue/Proofs/{Log,LogAny,LogHeader,LogTrunc,LogDamage,
+LogCrash,LogCrashAny,FsyncCore,Wcq,WcqV}.lean`).  The model (`Blue/Model/Log.lean`) is the writer `_append` /
+`append_split` / `true_up` and the reader `next_header` / `next_frame` / `next` of `sst/src/log.rs`
+over a parameter set `P` (block size, `HEADER_MAX_SIZE`, `TABLE_FULL_SIZE`, header codec, checksum).
+`Good P` is what the theorems need; `good_real` shows that the parameters *read out of the source*
+(`Blue.ConstsTie.extractedLogParams`, equal to the `realParams` the driver runs) satisfy it for any
+32-bit checksum, in particular for the CRC-32C the driver computes.
+
+A batch here is the byte buffer of one `append` (for `ConcurrentLogBuilder`: the members'
+`WriteBatch` buffers merged by the write core into one frame). -/
+namespace Blue.Props.C12
+open Blue.Log
+
+/-! ## constants: the theorems are about the values in the source -/
+
+/-- `realParams` is the parameter set built from the extracted `BLOCK_BITS`, `HEADER_MAX_SIZE`,
+    `TABLE_FULL_SIZE` and `Header` field numbers -/
+theorem params_from_source (crc : List Nat → Nat) :
+    realParams crc = Blue.ConstsTie.extractedLogParams crc := Blue.ConstsTie.log_params crc
+
+/-- `MAX_BATCH_SIZE = BLOCK_SIZE − 2·HEADER_MAX_SIZE`, `WriteBatch` accepts up to `BLOCK_SIZE`,
+    the discriminants are the source's -/
+theorem sizes_from_source :
+    Blue.Generated.logBlockSize = 2 ^ Blue.Generated.logBlockBits
+    ∧ Blue.Generated.logMaxBatchSize + 2 * Blue.Generated.logHeaderMaxSize = Blue.Generated.logBlockSize
+    ∧ Blue.Generated.logBatchLimit = Blue.Generated.logBlockSize
+    ∧ WHOLE = Blue.Generated.logHeaderWhole ∧ FIRST = Blue.Generated.logHeaderFirst
+    ∧ SECOND = Blue.Generated.logHeaderSecond :=
+  ⟨Blue.ConstsTie.log_sizes.1, Blue.ConstsTie.log_sizes.2.1, Blue.ConstsTie.log_sizes.2.2,
+   Blue.ConstsTie.log_discriminants.1, Blue.ConstsTie.log_discriminants.2.1, Blue.ConstsTie.log_discriminants.2.2⟩
+
+/-- the real log's parameters — as extracted from the source — satisfy `Good`, for any checksum
+    with 32-bit values: the `Header` message round-trips and its encoding leaves room inside
+    `HEADER_MAX_SIZE` -/
+theorem good_real (crc : List Nat → Nat) (hcrc : ∀ l, crc l < 4294967296) :
+    Good (Blue.ConstsTie.extractedLogParams crc) :=
+  Blue.ConstsTie.log_params crc ▸ Blue.Log.good_real crc hcrc
+
+/-- … in particular the exact parameter set the correspondence driver runs (CRC-32C in Lean) -/
+theorem good_driver : Good Blue.Driver.C12.P := Blue.Log.good_real _ Blue.Crc32c.crc32c_lt
+
+/-! ## sequential log
+
+The size hypothesis is the reader's own limit only (`|batch| ≤ TABLE_FULL_SIZE`): the theorems cover
+the documented `MAX_BATCH_SIZE`, the `BLOCK_SIZE` that `WriteBatch::put/del/merge` really accept, and
+beyond (`Blue/Proofs/LogAny.lean`; the versions with `|batch| + 2·H ≤ B` in `Blue/Proofs/Log.lean` are
+instances). -/
+
+/-- what one `append` wrote is read back as exactly that batch and the reader ends up just after
+    it — whole frame, padded to the boundary (then whole, or split there), or split across it; any
+    prefix, any suffix -/
+theorem append_read {P : Params} (g : Good P) (pre buf suf : List Nat) (htf : buf.length ≤ P.tableFull) :
+    nextBatch P (pre ++ appendAt P 2 pre.length buf ++ suf) 2 pre.length
+      = .ok (buf, pre.length + (appendAt P 2 pre.length buf).length) :=
+  Blue.Log.append_read_any g pre buf suf htf
+
+/-- reading a log yields exactly the appended batches, in order, whatever their sizes and however
+    they straddle block boundaries -/
+theorem log_roundtrip {P : Params} (g : Good P) (bufs : List (List Nat)) (pre : List Nat)
+    (hsz : ∀ b ∈ bufs, b.length ≤ P.tableFull) :
+    readAll P (pre ++ writeAll P bufs pre.length) (bufs.length + 1) pre.length = some bufs :=
+  Blue.Log.log_roundtrip_any g bufs pre hsz
+
+/-- the same for the real parameters with the driver's CRC-32C, the size bound being what
+    `WriteBatch` accepts (`check_batch_size`: `BLOCK_SIZE`, extracted) -/
+theorem log_roundtrip_real (bufs : List (List Nat))
+    (hsz : ∀ b ∈ bufs, b.length ≤ Blue.Generated.logBatchLimit) :
+    readAll Blue.Driver.C12.P (writeAll Blue.Driver.C12.P bufs 0) (bufs.length + 1) 0 = some bufs := by
+  have h := Blue.Log.log_roundtrip_any good_driver bufs [] (fun b hb => by
+    have := hsz b hb
+    show b.length ≤ 1006632960
+    simp only [Blue.Generated.logBatchLimit] at this
+    omega)
+  simpa using h
+
+/-- cut the log at any byte: the reader delivers a prefix of the appended batches and nothing
+    else (then it ends or reports an error) — never part of a batch, never an invented one -/
+theorem truncated_log_prefix {P : Params} (g : Good P) (bufs : List (List Nat)) (n : Nat)
+    (hsz : ∀ b ∈ bufs, b.length ≤ P.tableFull) :
+    ∃ rest, bufs = (readSome P ((writeAll P bufs 0).take n) (bufs.length + 1) 0).1 ++ rest :=
+  Blue.Log.truncated_log_prefix_any g bufs n hsz
+
+/-- for *every* byte list and every cut (no property of the writer used): what the cut file
+    delivers, the whole file delivers first, in the same order -/
+theorem readSome_take_prefix {P : Params} (file : List Nat) (n fuel off : Nat) :
+    ∃ rest, (readSome P file fuel off).1 = (readSome P (file.take n) fuel off).1 ++ rest :=
+  Blue.Log.readSome_take_prefix file n fuel off
+
+/-- two files that agree on their first `m` bytes deliver identical batches for every read ending
+    within those bytes: damage or truncation at offset `m` or later cannot change, reorder or
+    invent an earlier batch -/
+theorem reads_agree_before_damage {P : Params} (hB : 0 < P.B) (f f' : List Nat) (m : Nat)
+    (hsame : f.take m = f'.take m) (fuel off : Nat) (r : List Nat × Nat)
+    (h : nextBatch P f fuel off = .ok r) (hm : r.2 ≤ m) : nextBatch P f' fuel off = .ok r :=
+  Blue.Log.reads_agree_before_damage hB f f' m hsame fuel off r h hm
+
+/-- crash the writer between any two system calls of `write; fdatasync; acknowledge`: under both
+    persistence models the surviving file reads back without error as a prefix of the batches
+    containing every acknowledged one and at most the one in flight -/
+theorem crash_prefix {P : Params} (g : Good P) (bufs done : List (List Nat)) (st : Blue.LogCrash.FileSt) (k : Nat)
+    (hsz : ∀ b ∈ done ++ bufs, b.length ≤ P.tableFull)
+    (hs : st.synced = writeAll P done 0) (hp : st.pending = []) :
+    let evs := (Blue.LogCrash.protocol P bufs st.synced.length done.length).take k
+    let st' := evs.foldl Blue.LogCrash.FileSt.apply st
+    ∃ ja jb, readAll P (Blue.LogCrash.crashA st') (ja + 1) 0 = some ((done ++ bufs).take ja)
+      ∧ readAll P (Blue.LogCrash.crashB st') (jb + 1) 0 = some ((done ++ bufs).take jb)
+      ∧ done.length + Blue.LogCrash.acked evs ≤ jb ∧ jb ≤ ja ∧ ja ≤ done.length + Blue.LogCrash.acked evs + 1 :=
+  Blue.LogCrash.crash_prefix_any g bufs done st k hsz hs hp
+
+/-! ## concurrent appends: the two coalescing queues -/
+
+/-- the fsync core keeps `synced ≤ durable ≤ written` whatever batches `can_batch` forms -/
+theorem fsync_invariant {s : Blue.FsyncCore.St} (h : Blue.FsyncCore.Inv s) (ev : Blue.FsyncCore.Ev) :
+    Blue.FsyncCore.Inv (Blue.FsyncCore.step s ev).1 := Blue.FsyncCore.inv_step h ev
+
+/-- a caller the fsync core answers `true` has its offset covered by an `fdatasync` that returned:
+    `append` returns `Ok` only after its bytes are durable -/
+theorem answered_true_is_durable {s : Blue.FsyncCore.St} (h : Blue.FsyncCore.Inv s) (inputs : List Nat) (ok : Bool)
+    (hans : (Blue.FsyncCore.step s (.work inputs ok)).2 = some true) :
+    ∀ i ∈ inputs, i ≤ (Blue.FsyncCore.step s (.work inputs ok)).1.durable :=
+  Blue.FsyncCore.answered_true_is_durable h inputs ok hans
+
+/-- in every interleaving of `do_work` the core is handed the callers' inputs exactly once each,
+    in link order: the file is `writeAll` of the appends in queue order -/
+theorem core_sees_inputs_once_in_order (out : Nat → Nat) (evs : List Blue.Wcq.Ev) :
+    ∃ m, (evs.foldl (Blue.Wcq.step out) Blue.Wcq.init).log = List.range m :=
+  Blue.Wcq.core_sees_inputs_once_in_order out evs
+
+/-- a call that has returned returned the output for its own input -/
+theorem own_result (out : Nat → Nat) (evs : List Blue.Wcq.Ev) (i : Nat) (e : Blue.Wcq.Ent) (o : Nat)
+    (he : (evs.foldl (Blue.Wcq.step out) Blue.Wcq.init).ents[i]? = some e) (hr : e.ret = some o) : o = out i :=
+  Blue.Wcq.own_result out evs i e o he hr
+
+/-- the same with arbitrary core answers carried on the events (the write core hands every member
+    of a merged batch the same cumulative offset) -/
+theorem core_sees_inputs_once_in_order_v (evs : List Blue.WcqV.Ev) :
+    ∃ m, (evs.foldl Blue.WcqV.step Blue.WcqV.init).log = List.range m :=
+  Blue.WcqV.core_sees_inputs_once_in_order evs
+
+theorem own_result_v (evs : List Blue.WcqV.Ev) (i : Nat) (e : Blue.WcqV.Ent) (o : Nat)
+    (he : (evs.foldl Blue.WcqV.step Blue.WcqV.init).ents[i]? = some e) (hr : e.ret = some o) :
+    Blue.WcqV.look (evs.foldl Blue.WcqV.step Blue.WcqV.init).prod i = some o :=
+  Blue.WcqV.own_result evs i e o he hr
+
+/-- neither `panic!` of `do_work` is reachable -/
+theorem queue_never_panics (evs : List Blue.WcqV.Ev) :
+    (evs.foldl Blue.WcqV.step Blue.WcqV.init).panicked = false := Blue.WcqV.never_panics evs
+
+/-! ## non-vacuity -/
+
+/-- the hypotheses of the sequential theorems are met by the real parameters, and a batch of
+    `BLOCK_SIZE` bytes (the largest `WriteBatch`) meets the size hypothesis -/
+example : Good Blue.Driver.C12.P ∧ (∀ b : List Nat, b.length = Blue.Generated.logBatchLimit →
+    b.length ≤ Blue.Driver.C12.P.tableFull) :=
+  ⟨good_driver, fun b hb => by
+    show b.length ≤ 1006632960
+    rw [hb]; decide⟩
+
+/-- a tiny `Good` parameter set (block of 16, `H = 4`, three-element headers) on which every writer
+    case is a closed computation -/
+def toyParams : Params where
+  B := 16
+  H := 4
+  tableFull := 1000
+  encH := fun h => [h.size, h.disc, h.crc]
+  decH := fun bs => match bs with | [a, b, c] => some ⟨a, b, c⟩ | _ => none
+  crc := fun _ => 0
+
+example : Good toyParams where
+  hH := by decide
+  hB := by decide
+  crc_lt := fun _ => by show (0 : Nat) < 4294967296; omega
+  tf_lt := by decide
+  dec_enc := fun _ _ _ _ => rfl
+  enc_len := fun _ _ _ _ => ⟨by show 1 ≤ 3; omega, by show 3 + 1 ≤ 4; omega⟩
+
+/-- whole frame 0..10; split 10..16 | 16..23; split 23..32 | 32..39; whole 39..44; four bytes of
+    padding, whole 48..53; a batch of 20 bytes (longer than a block) split 53..64 | 64..81, its
+    SECOND frame running past the boundary at 80.  All read back; a cut inside a split frame
+    delivers the batches before it and then an error; a cut inside the padding ends cleanly -/
+example :
+    let bufs := [[1, 2, 3, 4, 5, 6], [7, 8, 9, 10, 11], [12, 13, 14, 15, 16, 17, 18, 19], [20], [21],
+                 (List.range 20).map (· + 30)]
+    readAll toyParams (writeAll toyParams bufs 0) 7 0 = some bufs
+    ∧ (writeAll toyParams bufs 0).length = 81
+    ∧ (writeAll toyParams bufs 0).take 23 = [3, 6, 1, 0, 1, 2, 3, 4, 5, 6, 3, 2, 2, 0, 7, 8, 3, 3, 3, 0, 9, 10, 11]
+    ∧ slice (writeAll toyParams bufs 0) 39 14 = [3, 1, 1, 0, 20, 0, 0, 0, 0, 3, 1, 1, 0, 21]
+    ∧ readSome toyParams ((writeAll toyParams bufs 0).take 30) 7 0 = (bufs.take 2, true)
+    ∧ readSome toyParams ((writeAll toyParams bufs 0).take 46) 7 0 = (bufs.take 4, false)
+    ∧ readSome toyParams ((writeAll toyParams bufs 0).take 80) 7 0 = (bufs.take 5, true) := by decide
+
+/-- the fsync core: a write of 10 bytes, then a batch `{7, 10}` whose `fdatasync` succeeds is
+    answered `true` and both offsets are durable -/
+example :
+    let s0 : Blue.FsyncCore.St := ⟨0, 0, 0⟩
+    let s1 := (Blue.FsyncCore.step s0 (.wrote 10)).1
+    Blue.FsyncCore.Inv s0 ∧ (Blue.FsyncCore.step s1 (.work [7, 10] true)).2 = some true
+      ∧ (Blue.FsyncCore.step s1 (.work [7, 10] true)).1.durable = 10 := by
+  refine ⟨⟨Nat.le_refl _, Nat.le_refl _⟩, ?_, ?_⟩ <;> decide
+
+/-- the queue: three callers, the first leads a batch of two whose members get the same value (as
+    the log's write core answers), the third leads alone -/
+example :
+    let s := [Blue.WcqV.Ev.link, .link, .link, .lead 0 2, .deliver 0 77, .deliver 0 77, .observe 1, .finish 0,
+              .lead 2 1, .deliver 2 99, .finish 2].foldl Blue.WcqV.step Blue.WcqV.init
+    s.log = [0, 1, 2] ∧ s.ents.map (·.ret) = [some 77, some 77, some 99] := by decide
+
+end Blue.Props.C12
+
+#print axioms Blue.Props.C12.params_from_source
+#print axioms Blue.Props.C12.sizes_from_source
+#print axioms Blue.Props.C12.good_real
+#print axioms Blue.Props.C12.good_driver
+#print axioms Blue.Props.C12.append_read
+#print axioms Blue.Props.C12.log_roundtrip
+#print axioms Blue.Props.C12.log_roundtrip_real
+#print axioms Blue.Props.C12.truncated_log_prefix
+#print axioms Blue.Props.C12.readSome_take_prefix
+#print axioms Blue.Props.C12.reads_agree_before_damage
+#print axioms Blue.Props.C12.crash_prefix
+#print axioms Blue.Props.C12.fsync_invariant
+#print axioms Blue.Props.C12.answered_true_is_durable
+#print axioms Blue.Props.C12.core_sees_inputs_once_in_order
+#print axioms Blue.Props.C12.own_result
+#print axioms Blue.Props.C12.core_sees_inputs_once_in_order_v
+#print axioms Blue.Props.C12.own_result_v
+#print axioms Blue.Props.C12.queue_never_panics
